@@ -12,9 +12,15 @@
   blocks, the exact-size theorem for well-formed elements (`GoodBlocks`, see C08).
   `rtosc_bundle` is modelled after fixes/C02-bundle-len.patch; `bundle_unfixed_overflows`
   records what the unrepaired body does on the witness of defect F2.
+
+  Callers that own a block and *claim* a capacity (`rtosc_message` as a C caller sees it, the
+  C++ wrappers with their private buffers) are modelled with `callAt` (Osc/Bundle.lean): block and
+  claimed `len` are independent, a store at an index `≥ block length` sets `oob`.  Their theorems
+  have the hypothesis `len ≤ block length`; `wrapper_overclaim_detected` shows the flag being set
+  when it fails.  With the NULL pointer `len` is not looked at (`amessage_null_any_len`).
 -/
 import RtoscModel.Proofs.OscAccess
-import RtoscModel.Proofs.BundleWrite
+import RtoscModel.Proofs.BundleAt
 namespace Rtosc.Osc
 open Rtosc
 
@@ -64,8 +70,12 @@ theorem amessage_null_size (m : Msg) (cargs : List CArg) (hwf : m.WF) (hd : Deno
   ⟨(Spec.encode m).length, amessage_null_spec m cargs hwf hd,
     fun buf h => ⟨_, amessage_spec m cargs buf hwf hd h⟩⟩
 
-/-- **vmessage_fixed_buffer** — `rtosc_message` / `rtosc_vmessage` obey the same discipline: for
-    every destination (any capacity, NULL) they behave exactly like `rtosc_amessage`. -/
+/-- **vmessage_fixed_buffer** — `rtosc_vmessage` obeys the same discipline: for every destination
+    buffer of any capacity it behaves exactly like `rtosc_amessage` (the NULL buffer and
+    `rtosc_message` itself: `message_fixed_buffer`).  Hypothesis `hf`: every 32-bit argument passed
+    satisfies `narrow (widen v) = v` — it is only used for `float` arguments (the others are not
+    converted) and does not influence the size; the statement fixes the exact bytes, hence it is
+    kept (see ASSUMPTIONS of the property module; non-vacuity example at the end of the file). -/
 theorem vmessage_fixed_buffer (narrow : UInt64 → UInt32) (widen : UInt32 → UInt64) (m : Msg)
     (cargs : List CArg) (buf : Bytes) (hwf : m.WF) (hd : Denote cargs m.args)
     (hf : ∀ v, CArg.w32 v ∈ cargs → narrow (widen v) = v) :
@@ -123,47 +133,101 @@ theorem appendBundle_never_oob (dst src : Bytes) (maxLen dstLen srcLen : Nat) (r
     r.oob = false ∧ r.buf.length = dst.length :=
   appendBundle_safe dst src maxLen dstLen srcLen r hmax h
 
-/-- **tlink_writeArray_fixed_buffer** — `ThreadLink::writeArray` builds into `write_buffer[MaxMsg]`
-    (`wbuf`, any previous content): never a store outside it; a message longer than `MaxMsg`
-    yields length 0 (nothing is handed to the ring) and a zeroed buffer. -/
-theorem tlink_writeArray_fixed_buffer (m : Msg) (cargs : List CArg) (wbuf : Bytes) (hwf : m.WF)
-    (hd : Denote cargs m.args) :
-    ∃ r, tlinkWriteArray wbuf m.addr m.tags cargs = some r ∧ r.oob = false ∧
-      (wbuf.length < (Spec.encode m).length → r.ret = 0 ∧ r.buf = some (zeros wbuf.length)) ∧
-      ((Spec.encode m).length ≤ wbuf.length → r.ret = (Spec.encode m).length ∧
+/-- `rtosc_amessage` obeys the discipline (`Disciplined`) on every buffer -/
+theorem amessage_disciplined (m : Msg) (cargs : List CArg) (hwf : m.WF) (hd : Denote cargs m.args) :
+    Disciplined (fun buf => amessage buf m.addr m.tags cargs) (Spec.encode m) :=
+  ⟨amessage_null_spec m cargs hwf hd, fun buf => amessage_fixed m cargs buf hwf hd⟩
+
+/-- and so does `rtosc_vmessage` at a call site that passes the promoted values of `cargs` -/
+theorem vmessage_disciplined (narrow : UInt64 → UInt32) (widen : UInt32 → UInt64) (m : Msg)
+    (cargs : List CArg) (hwf : m.WF) (hd : Denote cargs m.args)
+    (hf : ∀ v, CArg.w32 v ∈ cargs → narrow (widen v) = v) :
+    Disciplined (fun buf => vmessage narrow buf m.addr m.tags (promote widen m.tags cargs)) (Spec.encode m) := by
+  constructor
+  · show vmessage narrow none m.addr m.tags (promote widen m.tags cargs) = _
+    rw [vmessage_promote narrow widen none m.addr m.tags cargs m.args hwf.matches_ hd hf]
+    exact amessage_null_spec m cargs hwf hd
+  · intro buf
+    exact vmessage_fixed_buffer narrow widen m cargs buf hwf hd hf
+
+/-- **amessage_null_any_len** — with the NULL buffer `len` is not looked at (`if(!buffer) return
+    total_len;` comes first): `rtosc_amessage(NULL, len, …)` is the size query for every `len`. -/
+theorem amessage_null_any_len (len : Nat) (addr tags : Bytes) (cargs : List CArg) :
+    amessageAt none len addr tags cargs = amessage none addr tags cargs := rfl
+
+/-- **message_fixed_buffer** — `rtosc_message(buffer, len, address, arguments, ...)` itself (the
+    variadic entry point named in the property): the caller owns the block `blk` and claims
+    `len ≤ blk.length`.  No store outside the block, the bytes behind `len` keep their values; too
+    small: 0 and `len` zero bytes; otherwise the exact size and the encoding. With NULL: the size. -/
+theorem message_fixed_buffer (narrow : UInt64 → UInt32) (widen : UInt32 → UInt64) (m : Msg)
+    (cargs : List CArg) (blk : Bytes) (len : Nat) (hwf : m.WF) (hd : Denote cargs m.args)
+    (hf : ∀ v, CArg.w32 v ∈ cargs → narrow (widen v) = v) (hlen : len ≤ blk.length) :
+    rtoscMessage narrow (some blk) len m.addr m.tags (promote widen m.tags cargs) =
+      some (if (Spec.encode m).length ≤ len
+        then ⟨some (Spec.encode m ++ blk.drop (Spec.encode m).length), (Spec.encode m).length, false⟩
+        else ⟨some (zeros len ++ blk.drop len), 0, false⟩) ∧
+    rtoscMessage narrow none len m.addr m.tags (promote widen m.tags cargs) =
+      some ⟨none, (Spec.encode m).length, false⟩ :=
+  ⟨callAt_fixed _ _ blk len (vmessage_disciplined narrow widen m cargs hwf hd hf) hlen,
+   (vmessage_disciplined narrow widen m cargs hwf hd hf).1⟩
+
+/-- **tlink_writeArray_fixed_buffer** — `ThreadLink::writeArray` builds into `write_buffer`
+    (`wbuf`, any previous content) and passes `MaxMsg` as capacity.  Provided the wrapper's claim
+    is honest (`maxMsg ≤ wbuf.length`; the constructor allocates exactly `MaxMsg` bytes): never a
+    store outside the block; a message longer than `MaxMsg` yields length 0 (nothing is handed to
+    the ring) and `MaxMsg` zero bytes; a message that fits is there intact. -/
+theorem tlink_writeArray_fixed_buffer (m : Msg) (cargs : List CArg) (wbuf : Bytes) (maxMsg : Nat)
+    (hwf : m.WF) (hd : Denote cargs m.args) (hcap : maxMsg ≤ wbuf.length) :
+    ∃ r, tlinkWriteArray wbuf maxMsg m.addr m.tags cargs = some r ∧ r.oob = false ∧
+      (maxMsg < (Spec.encode m).length → r.ret = 0 ∧ r.buf = some (zeros maxMsg ++ wbuf.drop maxMsg)) ∧
+      ((Spec.encode m).length ≤ maxMsg → r.ret = (Spec.encode m).length ∧
         r.buf = some (Spec.encode m ++ wbuf.drop (Spec.encode m).length)) := by
-  refine ⟨_, amessage_fixed m cargs wbuf hwf hd, ?_, ?_, ?_⟩
+  refine ⟨_, callAt_fixed _ _ wbuf maxMsg (amessage_disciplined m cargs hwf hd) hcap, ?_, ?_, ?_⟩
   · split <;> rfl
   · intro h; rw [if_neg (by omega)]; exact ⟨rfl, rfl⟩
   · intro h; rw [if_pos h]; exact ⟨rfl, rfl⟩
 
 /-- **tlink_write_fixed_buffer** — the same for the variadic `ThreadLink::write`. -/
 theorem tlink_write_fixed_buffer (narrow : UInt64 → UInt32) (widen : UInt32 → UInt64) (m : Msg)
-    (cargs : List CArg) (wbuf : Bytes) (hwf : m.WF) (hd : Denote cargs m.args)
-    (hf : ∀ v, CArg.w32 v ∈ cargs → narrow (widen v) = v) :
-    ∃ r, tlinkWrite narrow wbuf m.addr m.tags (promote widen m.tags cargs) = some r ∧ r.oob = false ∧
-      (wbuf.length < (Spec.encode m).length → r.ret = 0 ∧ r.buf = some (zeros wbuf.length)) ∧
-      ((Spec.encode m).length ≤ wbuf.length → r.ret = (Spec.encode m).length ∧
+    (cargs : List CArg) (wbuf : Bytes) (maxMsg : Nat) (hwf : m.WF) (hd : Denote cargs m.args)
+    (hf : ∀ v, CArg.w32 v ∈ cargs → narrow (widen v) = v) (hcap : maxMsg ≤ wbuf.length) :
+    ∃ r, tlinkWrite narrow wbuf maxMsg m.addr m.tags (promote widen m.tags cargs) = some r ∧ r.oob = false ∧
+      (maxMsg < (Spec.encode m).length → r.ret = 0 ∧ r.buf = some (zeros maxMsg ++ wbuf.drop maxMsg)) ∧
+      ((Spec.encode m).length ≤ maxMsg → r.ret = (Spec.encode m).length ∧
         r.buf = some (Spec.encode m ++ wbuf.drop (Spec.encode m).length)) := by
-  refine ⟨_, vmessage_fixed_buffer narrow widen m cargs wbuf hwf hd hf, ?_, ?_, ?_⟩
+  refine ⟨_, callAt_fixed _ _ wbuf maxMsg (vmessage_disciplined narrow widen m cargs hwf hd hf) hcap, ?_, ?_, ?_⟩
   · split <;> rfl
   · intro h; rw [if_neg (by omega)]; exact ⟨rfl, rfl⟩
   · intro h; rw [if_pos h]; exact ⟨rfl, rfl⟩
 
 /-- **rtdata_reply_fixed_buffer** — `RtData::reply(path,args,...)` and `RtData::broadcast` build
-    into `char buffer[8192]` on the stack: never a store outside the 8192 bytes; a message that
-    needs more is replaced by the empty (all-zero) buffer, a message that fits is passed on intact. -/
+    into `char buffer[N]` on the stack (`stack`) and pass `cap` (N = cap = 8192 in the unchanged
+    source).  Provided `cap ≤ N`: never a store outside the N bytes; a message that needs more than
+    `cap` is replaced by the empty (all-zero) buffer, a message that fits is passed on intact. -/
 theorem rtdata_reply_fixed_buffer (narrow : UInt64 → UInt32) (widen : UInt32 → UInt64) (m : Msg)
-    (cargs : List CArg) (stack : Bytes) (hwf : m.WF) (hd : Denote cargs m.args)
-    (hf : ∀ v, CArg.w32 v ∈ cargs → narrow (widen v) = v) (h8192 : stack.length = 8192) :
-    ∃ r, rtdataReply narrow stack m.addr m.tags (promote widen m.tags cargs) = some r ∧ r.oob = false ∧
-      (8192 < (Spec.encode m).length → r.ret = 0 ∧ r.buf = some (zeros 8192)) ∧
-      ((Spec.encode m).length ≤ 8192 → r.ret = (Spec.encode m).length ∧
+    (cargs : List CArg) (stack : Bytes) (cap : Nat) (hwf : m.WF) (hd : Denote cargs m.args)
+    (hf : ∀ v, CArg.w32 v ∈ cargs → narrow (widen v) = v) (hcap : cap ≤ stack.length) :
+    ∃ r, rtdataReply narrow stack cap m.addr m.tags (promote widen m.tags cargs) = some r ∧ r.oob = false ∧
+      (cap < (Spec.encode m).length → r.ret = 0 ∧ r.buf = some (zeros cap ++ stack.drop cap)) ∧
+      ((Spec.encode m).length ≤ cap → r.ret = (Spec.encode m).length ∧
         r.buf = some (Spec.encode m ++ stack.drop (Spec.encode m).length)) := by
-  refine ⟨_, vmessage_fixed_buffer narrow widen m cargs stack hwf hd hf, ?_, ?_, ?_⟩
+  refine ⟨_, callAt_fixed _ _ stack cap (vmessage_disciplined narrow widen m cargs hwf hd hf) hcap, ?_, ?_, ?_⟩
   · split <;> rfl
-  · intro h; rw [if_neg (by omega), h8192]; exact ⟨rfl, rfl⟩
-  · intro h; rw [if_pos (by omega)]; exact ⟨rfl, rfl⟩
+  · intro h; rw [if_neg (by omega)]; exact ⟨rfl, rfl⟩
+  · intro h; rw [if_pos h]; exact ⟨rfl, rfl⟩
+
+/-- **wrapper_overclaim_detected** — the capacity hypotheses above are not decoration: a wrapper
+    that claims more than it owns (here: a 24-byte block, `len` 32, the 32-byte message below)
+    sets the out-of-bounds flag of the model; and one that claims 40 for a message that does not
+    fit 40 either (`memset(buffer,0,len)`) as well. -/
+theorem wrapper_overclaim_detected :
+    (amessageAt (some (List.replicate 24 170)) 32 [47, 97, 98] [91, 115, 98, 93, 105]
+        [.str [104, 101, 108, 108, 111], .blob 3 (some [1, 2, 3]), .w32 0x7fffffff]).map (·.oob) = some true ∧
+    (amessageAt (some (List.replicate 24 170)) 28 [47, 97, 98] [91, 115, 98, 93, 105]
+        [.str [104, 101, 108, 108, 111], .blob 3 (some [1, 2, 3]), .w32 0x7fffffff]).map (·.oob) = some true ∧
+    (amessageAt (some (List.replicate 24 170)) 24 [47, 97, 98] [91, 115, 98, 93, 105]
+        [.str [104, 101, 108, 108, 111], .blob 3 (some [1, 2, 3]), .w32 0x7fffffff]).map (·.oob) = some false := by
+  refine ⟨?_, ?_, ?_⟩ <;> decide +kernel
 
 /-! ### Non-vacuity, and the record of defect F2 -/
 
@@ -181,6 +245,20 @@ example : amessage (some (List.replicate 31 170)) c02Msg.addr c02Msg.tags (c02Ms
 example : (amessage (some (List.replicate 32 170)) c02Msg.addr c02Msg.tags (c02Msg.args.map Arg.toC)).map
     (fun r => (r.ret, r.oob)) = some (32, false) := by decide +kernel
 example : amessage (some []) c02Msg.addr c02Msg.tags (c02Msg.args.map Arg.toC) = some ⟨some [], 0, false⟩ := by
+  decide +kernel
+
+/-- the hypothesis `hf` of the variadic theorems (a `float` argument survives `float → double →
+    float`, which IEEE-754 guarantees for every non-signalling pattern; `int`/`char`/colour
+    arguments are 32-bit too and are not converted at all) holds of the target's conversions on
+    this message, and the wrapper theorems apply to it with the buffers of the unchanged source -/
+example : ∀ v, CArg.w32 v ∈ c02Msg.args.map Arg.toC → narrowF64 (widenF32 v) = v := by
+  intro v hv
+  have : v = 0x7fffffff := by simpa [c02Msg, Arg.toC] using hv
+  subst this
+  decide +kernel
+example : (8192 : Nat) ≤ (List.replicate 8192 (170 : UInt8)).length := by rw [List.length_replicate]; exact Nat.le_refl _
+example : (rtoscMessage narrowF64 (some (List.replicate 40 170)) 32 c02Msg.addr c02Msg.tags
+    (promote widenF32 c02Msg.tags (c02Msg.args.map Arg.toC))).map (fun r => (r.ret, r.oob)) = some (32, false) := by
   decide +kernel
 
 /-- the 20-byte message `"/abcdefg" ",i" 1` -/
